@@ -288,6 +288,10 @@ func sig(feats []string, extra ...string) string {
 // ---------------------------------------------------------------------------- concretisation
 
 const backendDC = "backend-dc"
+
+// contact point of the proxies started against a fake backend
+var contact = map[*fakecql.Cluster]string{}
+
 const dseVersion = "6.8.9-fake"
 
 // backend-derived facts (what the fake backend's system.local says, see fakecql.localRows)
@@ -1299,7 +1303,7 @@ func runCfg(res *results, cluster *fakecql.Cluster, j *job, starLocal, starPeers
 	var order []string
 	for pi := range j.row.Proxies {
 		ps := &j.row.Proxies[pi]
-		o := env.Options{Cluster: cluster, Hooks: false, DC: ps.Config.DC, Tokens: cc.toks(ps.Config.Tokens), Tracer: nullTracer}
+		o := env.Options{Cluster: cluster, Contact: contact[cluster], Hooks: false, DC: ps.Config.DC, Tokens: cc.toks(ps.Config.Tokens), Tracer: nullTracer}
 		if ps.Config.RPC == 0 {
 			// without rpc-address the local node's address is the address the client connected to: the proxy listens
 			// on every local address and is asked through two of them, one after the other
@@ -1448,13 +1452,23 @@ func main() {
 		if dse {
 			ip = fakecql.IP(env.Block(), 202)
 		}
-		if err := cl.Start(ip); err != nil {
+		// a second node, in another data center and with a lower address than the contact point: what the proxy derives
+		// from the backend (data center, versions, partitioner) is what the node it is connected to says about itself
+		other := fakecql.IP(env.Block(), 101)
+		if dse {
+			other = fakecql.IP(env.Block(), 102)
+		}
+		if err := cl.Start(ip, other); err != nil {
 			fmt.Fprintln(os.Stderr, "cannot start fake backend:", err)
 			os.Exit(4)
 		}
 		for _, n := range cl.Nodes() {
 			n.DC = backendDC
+			if n.IP == other {
+				n.DC = "elsewhere-dc"
+			}
 		}
+		contact[cl] = ip
 		var starLocal, starPeers *selRow
 		var mine []*selRow
 		for _, s := range sels {
